@@ -289,3 +289,82 @@ pub fn glue_missing_tokens(n: u8) {
     vcover!(n >= 2 && is_op[0]);
     core::mem::forget(tk); core::mem::forget(s); core::mem::forget(cfg);
 }
+
+// ---------------------------------------------------------------- native replay of an engine-M expression counterexample
+struct RefP<'a> { s: &'a [u8], xs: &'a [f64], i: usize, k: usize }
+impl<'a> RefP<'a> {
+    // alphabet index: 0 number, 1 '+', 2 '-', 3 '*', 4 '/', 5 '(', 6 ')'
+    fn peek(&self) -> Option<u8> { self.s.get(self.i).copied() }
+    fn expr(&mut self) -> Option<f64> {
+        let mut v = self.term()?;
+        loop {
+            match self.peek() {
+                Some(1) => { self.i += 1; v += self.term()?; }
+                Some(2) => { self.i += 1; v -= self.term()?; }
+                Some(0) | Some(5) => { v += self.term()?; }
+                _ => return Some(v),
+            }
+        }
+    }
+    fn term(&mut self) -> Option<f64> {
+        let mut v = self.factor()?;
+        loop {
+            match self.peek() {
+                Some(3) => { self.i += 1; v *= self.factor()?; }
+                Some(4) => { self.i += 1; let r = self.factor()?; v = if r == 0.0 { 0.0 } else { v / r }; }
+                _ => return Some(v),
+            }
+        }
+    }
+    fn factor(&mut self) -> Option<f64> {
+        match self.peek() {
+            Some(1) => { self.i += 1; self.factor() }
+            Some(2) => { self.i += 1; self.factor().map(|v| -v) }
+            Some(0) => { self.i += 1; let v = self.xs[self.k]; self.k += 1; Some(v) }
+            Some(5) => { self.i += 1; let v = self.expr()?; if self.peek() != Some(6) { return None; } self.i += 1; Some(v) }
+            _ => None,
+        }
+    }
+}
+
+/// (n, n shape codes, one f64 per number token): the real glue + parser + interpreter on that token list must
+/// not panic and, for a well-formed expression, must give the value of the usual rules
+pub fn m_replay_expression() {
+    let n: u8 = vany();
+    vassume(n >= 1 && n <= 8);
+    let mut shape = [0u8; 8];
+    let mut i = 0usize;
+    while i < n as usize { let c: u8 = vany(); vassume(c < 7); shape[i] = c; i += 1; }
+    let mut xs = [0f64; 8];
+    let mut k = 0usize;
+    i = 0;
+    while i < n as usize { if shape[i] == 0 { xs[k] = vany(); k += 1; } i += 1; }
+    let cfg = blank_config();
+    let s = Session::new();
+    let mut tk = mk_tokinizer(&cfg, &s);
+    let mut k2 = 0usize;
+    i = 0;
+    while i < n as usize {
+        let t = match shape[i] { 0 => { k2 += 1; TokenType::Number(xs[k2 - 1], NumberType::Decimal) }, 1 => TokenType::Operator('+'), 2 => TokenType::Operator('-'),
+            3 => TokenType::Operator('*'), 4 => TokenType::Operator('/'), 5 => TokenType::Operator('('), _ => TokenType::Operator(')') };
+        tk.tokens.push(Rc::new(t));
+        i += 1;
+    }
+    crate::tokinizer::verif_k_local::missing_token_adder(&mut tk);
+    let mut p = SyntaxParser::new(&s, &tk);
+    let parsed = p.parse();
+    let mut rp = RefP { s: &shape[..n as usize], xs: &xs[..k], i: 0, k: 0 };
+    let want = match rp.expr() { Some(v) if rp.i == n as usize => Some(v), _ => None };
+    let got = match parsed {
+        Ok(ast) => match Interpreter::execute(&cfg, Rc::new(ast), &s) {
+            Ok(a) => item_value(a.deref()),
+            Err(_) => None,
+        },
+        Err(_) => None,
+    };
+    if let Some(w) = want {
+        let g = got.expect("a well-formed expression evaluates to a number");
+        let scale = xs[..k].iter().fold(1.0f64, |a, b| a.max(b.abs()));
+        assert!((g - w).abs() <= 1e-9 * scale.max(w.abs()) || g == w);
+    }
+}
